@@ -24,25 +24,26 @@ PROP = Prop(
                  "(negative claims are not generated); topic names in the topics map are distinct",
                  "rack-aware runs are IN scope (the property quantifies over all inputs and does not exempt racks): the engine only uses racks to break ties "
                  "(complex path) or pre-assigns under a quota before the same balancing loop (simple path), so optimality is expected and was observed to hold"],
-    partial="Proved for all inputs and all accepted traces: accepted traces ending in `done` are Optimal and valid; stability from a valid optimal parsed state. "
-            "Not proved but checked on every real trace: that the real findSteal/level-tree agree with the acceptor's guards (in particular 'no path found' = "
-            "'no path exists'), and that drop/restick/assign leave a valid plan when balancing starts (the acceptor checks validity once on entering the "
-            "balancing phase). The input-level reading of stability (priors as listed by the members, rather than as parsed by the model of "
-            "parseMemberMetadata) is evaluated on real outputs, not proved. Non-vacuity is shown by the accepted real traces (Std.HashMap terms do not "
-            "reduce in the kernel, so there is no `decide` example of a full accepted trace).",
+    partial="Proved for all inputs and all accepted traces: accepted traces ending in `done` are Optimal and valid (also as C25's validPlan); stability both "
+            "from a valid optimal parsed state and from valid optimal priors as the members list them (parseMemberMetadata model proved to reproduce "
+            "conflict-free priors). Not proved but re-checked on every real trace: that the real findSteal / level tree agree with the acceptor's guards "
+            "(in particular 'no path found' = 'no path exists': the give-up guard recomputes reachability), and that drop/restick/assign leave a valid "
+            "plan when balancing starts (the acceptor checks validity once on entering the balancing phase). Kernel-checked non-vacuity examples: a "
+            "full accepted trace with a two-segment steal path, one with a give-up and loads 3/1, a stability instance; for the priors theorem only "
+            "the hypotheses about the priors are instantiated (Std.HashMap.fold over a non-empty map does not evaluate symbolically).",
 )
 MANIFEST = {
     "text": "Lean theorems over an abstract model of the sticky engine (an acceptor of its decision events: drop, restick, assign, steal path, give up, done), "
             "for groups of any size and traces of any length: every accepted trace that ends with `done` yields a plan in which no partition can move, directly or "
             "through a chain of moves between subscribers, to a member holding at least two fewer (key lemma: a member that gave up stays unable to improve across "
-            "all later steals); validity is kept by every steal; from a valid, optimally balanced parsed prior plan no plan-changing decision is accepted, so the "
-            "plan is unchanged. The real engine is tied to the acceptor on every run: its recorded decision trace must be accepted event by event (the give-up "
+            "all later steals); validity is kept by every steal; when the assignments the members list are valid and optimally balanced no plan-changing decision is accepted, "
+            "so the plan is exactly the listed one (the model of parseMemberMetadata is proved to reproduce conflict-free priors). The real engine is tied to the acceptor on every run: its recorded decision trace must be accepted event by event (the give-up "
             "guard recomputes reachability, which is where findSteal's completeness is checked) and must end in the returned plan. Independently, optimality, "
             "validity and both stability readings are evaluated on the real engine's output for every generated input (exhaustive small scopes, random groups "
             "up to 200 members, racks, stale generations, conflicting claims).",
     "note": "Trusted: Lean kernel; the hand-written acceptor (validated against every real trace, not derived from the Go source); the trace hook call sites; "
             "generators. Not proved: the level tree / Dijkstra search themselves (their decisions are re-checked per run), that the assignment phase ends valid "
-            "(re-checked per run), the relation between the members' listed priors and the parsed prior plan (checked on outputs).",
+            "(re-checked per run).",
     "technique": "Lean 4 proof (invariants over an event acceptor; graph reachability with closure certificates) with trace-replay correspondence against the real "
                  "engine and the Spec evaluated on real outputs",
 }
